@@ -273,7 +273,7 @@ def native_replay(crate, modpath, harness, witness, timeout=60):
     return {"reproduced": False, "detail": "native replay gave no verdict (rc=%s)" % rc, "output": text[-2000:]}
 
 
-def native_search(crate, modpath, harness, nbytes, seed, tries=3000, first=None, timeout=300):
+def native_search(crate, modpath, harness, nbytes, seed, tries=3000, first=None, timeout=300, only=None):
     """witness search on the real code: the verifier's witness first, then `tries` seeded pseudo-random byte strings generated and
     run inside ONE native process (hooks/common.rs verif_replay_main, search mode)"""
     if first:
@@ -289,6 +289,8 @@ def native_search(crate, modpath, harness, nbytes, seed, tries=3000, first=None,
         return {"reproduced": False, "detail": "native replay build failed", "output": "", "witness": first}
     env = dict(ENV)
     env.update({"VERIF_HARNESS": harness, "VERIF_SEARCH": str(tries), "VERIF_SEED": str(seed), "VERIF_NBYTES": str(max(1, nbytes)), "RUST_BACKTRACE": "0"})
+    if only:
+        env["VERIF_ONLY"] = only
     rc, text, secs = sh([exe, modpath + "::verif_replay", "--exact", "--nocapture", "--test-threads", "1"], timeout=timeout, env=env)
     m = re.search(r"REPLAY-FOUND harness=\S+ try=(\d+) detail=\[(.*?)\] witness=([0-9,]*)", text)
     if m:
